@@ -16,6 +16,10 @@ def cstate(n, st):
 
 KIND_FLAGS = dict(const={}, op={}, prior={}, sim={}, summary={}, disc={})
 
+# in-place writes to one node state through a reference: flag -> (state key, Coq constructor)
+FLAGS = dict(uses_meta=('_uses_meta', 'FUsesMeta'), uses_batch_size=('_uses_batch_size', 'FUsesBatchSize'),
+             uses_observed=('_uses_observed', 'FUsesObserved'), parameter=('_parameter', 'FParameter'))
+
 
 class C14(PropCheck):
     pid = 'C14'
@@ -30,9 +34,12 @@ class C14(PropCheck):
         return None
     chunk = 60
     build_targets = ('Graph/Edit.vo',)
-    rule = ('random edit scripts (6-16 operations) through the real API on several live models: node creation with positional parents '
+    rule = ('random edit scripts (7-18 operations and more: a copy is mostly followed by extra state writes) through the real API on several live models: node creation with positional parents '
             '(incl. private "_" constants), add_edge (default and explicit params), remove_node, NodeReference.become, parameter_names '
-            'setter, observed data changes, copy(), save()+load(); after every operation every live model is dumped (nodes, states, '
+            'setter, observed data changes, in-place writes to one node state through a reference (model[n].uses_meta = b as '
+            'elfi/examples/bdm.py does, model.get_state(n)["attr_dict"][key] = b and model.source_net.nodes[n]["attr_dict"][key] = b '
+            'for _uses_meta / _uses_batch_size / _uses_observed, _parameter set / popped as Prior.__init__ does; on any live model, '
+            'mostly right after a copy / reload on the source or on the new model), copy(), save()+load(); after every operation every live model is dumped (nodes, states, '
             'edges, observed, parameter_names) and at the end every live model generates all nodes with one seed; malformed stream: '
             'become onto a descendant, removing missing nodes, duplicate names; non-trivial = script with a become or remove or an '
             'edit after a copy that did not raise; distinct by script')
@@ -45,7 +52,7 @@ class C14(PropCheck):
         for i in range(n):
             ops = []
             live = [dict(nodes={}, order=[])]      # python-side shadow only to generate sensible scripts
-            k = r.randint(6, 16)
+            k = r.randint(7, 18)
             malformed = r.random() < 0.12
             counter = 0
             while len(ops) < k:
@@ -53,7 +60,7 @@ class C14(PropCheck):
                 sh = live[h]
                 names = list(sh['order'])
                 choice = r.random()
-                if len(names) < 2 or choice < 0.42:
+                if len(names) < 2 or choice < 0.37:
                     counter += 1
                     pool = [x for x in NAME_POOL if x not in sh['nodes']]
                     if not pool:
@@ -70,13 +77,13 @@ class C14(PropCheck):
                     ops.append(dict(op='add', h=h, name=nm, kind=kind, parents=parents, value=100 + counter, observed=obs))
                     sh['nodes'][nm] = kind
                     sh['order'].append(nm)
-                elif choice < 0.52:
+                elif choice < 0.46:
                     nm = r.choice(names)
                     ops.append(dict(op='remove', h=h, name=nm))
                     # shadow: approximate (private orphans may also go) -- refreshed from impl is not possible here
                     sh['nodes'].pop(nm, None)
                     sh['order'].remove(nm)
-                elif choice < 0.66:
+                elif choice < 0.59:
                     a, b = r.sample(names, 2)
                     if not malformed and names.index(a) < names.index(b):
                         # replacement created later than the replaced node is more likely a descendant: prefer older -> newer
@@ -85,7 +92,7 @@ class C14(PropCheck):
                     sh['nodes'][a] = sh['nodes'].get(b)
                     sh['nodes'].pop(b, None)
                     sh['order'].remove(b)
-                elif choice < 0.74:
+                elif choice < 0.66:
                     a, b = r.sample(names, 2)
                     if names.index(a) > names.index(b):
                         a, b = b, a
@@ -93,25 +100,45 @@ class C14(PropCheck):
                     if isinstance(par, str) and sh['nodes'].get(b) not in ('op', 'sim', 'summary'):
                         par = None      # only the recording operations accept arbitrary keyword arguments
                     ops.append(dict(op='edge', h=h, parent=a, child=b, param=par))
-                elif choice < 0.82:
+                elif choice < 0.73:
                     ps = r.sample(names, r.randint(0, min(3, len(names))))
                     if malformed and r.random() < 0.3:
                         ps.append('nosuch')
                     ops.append(dict(op='params', h=h, names=ps))
-                elif choice < 0.88:
+                elif choice < 0.79:
                     ops.append(dict(op='observed', h=h, name=r.choice(names), value=2000 + len(ops)))
-                elif choice < 0.96:
-                    ops.append(dict(op='copy', h=h))
-                    live.append(dict(nodes=dict(sh['nodes']), order=list(sh['order'])))
+                elif choice < 0.87:
+                    ops.append(self._flag_op(r, h, sh, malformed))
                 else:
-                    ops.append(dict(op='saveload', h=h))
+                    ops.append(dict(op='copy' if choice < 0.96 else 'saveload', h=h))
                     live.append(dict(nodes=dict(sh['nodes']), order=list(sh['order'])))
+                    # a copy is there to be changed: mostly follow it by in-place state writes on the new model and /
+                    # or on its source (before any other edit un-shares anything)
+                    for hh in r.sample([h, len(live) - 1], 2):
+                        if r.random() < 0.45:
+                            ops.append(self._flag_op(r, hh, live[hh], malformed))
             if malformed and r.random() < 0.5:
                 ops.insert(r.randrange(len(ops)), dict(op='remove', h=0, name='nosuch'))
+            seen_copy = False
             for o in ops:
                 self.bump('op=' + o['op'])
+                if o['op'] == 'flag':
+                    self.bump('flag=%s/%s/%s' % (o['flag'], o['route'], o['value']))
+                    self.bump('flag_after_copy=%s' % seen_copy)
+                seen_copy = seen_copy or o['op'] in ('copy', 'saveload')
             self.bump('malformed=%s' % malformed)
             yield dict(ops=ops, seed=r.randrange(2 ** 31))
+
+    def _flag_op(self, r, h, sh, malformed):
+        """an in-place write to one node state of live model h, through one of the reference routes"""
+        names = list(sh['order'])
+        # flags the recording operations tolerate are preferred on nodes that (by the shadow) carry one
+        recs = [x for x in names if sh['nodes'].get(x) in ('op', 'sim', 'summary', 'disc')]
+        flag = r.choice(['uses_meta', 'uses_meta', 'uses_meta', 'uses_batch_size', 'uses_observed', 'parameter'])
+        pool = names if flag == 'parameter' or not recs or r.random() < 0.1 else recs
+        nm = 'nosuch' if (malformed and r.random() < 0.15) or not pool else r.choice(pool)
+        route = r.choice(['ref', 'ref', 'get_state', 'source_net']) if flag == 'uses_meta' else r.choice(['get_state', 'source_net', 'ref_item'])
+        return dict(op='flag', h=h, name=nm, flag=flag, value=r.random() < 0.7, route=route)
 
     # ---------------------------------------------------------------------------------------------
     def _apply(self, models, rec, o):
@@ -143,6 +170,21 @@ class C14(PropCheck):
             m.parameter_names = list(o['names'])
         elif k == 'observed':
             m.observed[o['name']] = o['value']
+        elif k == 'flag':
+            key = FLAGS[o['flag']][0]
+            if o['route'] == 'ref':
+                m[o['name']].uses_meta = o['value']                     # InstructionsMapper setter
+                return
+            if o['route'] == 'get_state':
+                st = m.get_state(o['name'])['attr_dict']
+            elif o['route'] == 'ref_item':
+                st = m[o['name']]['attr_dict']                          # NodeReference.__getitem__
+            else:
+                st = m.source_net.nodes[o['name']]['attr_dict']
+            if o['flag'] == 'parameter' and not o['value']:
+                st.pop(key, None)                                       # presence is what counts for '_parameter'
+            else:
+                st[key] = o['value']
         elif k == 'copy':
             models.append(m.copy())
         elif k == 'saveload':
@@ -166,6 +208,8 @@ class C14(PropCheck):
             return '(ESetParams %s %s)' % (h, clist([cstr(x) for x in o['names']]))
         if k == 'observed':
             return '(ESetObserved %s %s (VConst %s))' % (h, cstr(o['name']), cz(o['value']))
+        if k == 'flag':
+            return '(ESetFlag %s %s %s %s)' % (h, cstr(o['name']), FLAGS[o['flag']][1], cbool(o['value']))
         if k == 'copy':
             return '(ECopy %s)' % h
         if k == 'saveload':
@@ -182,6 +226,12 @@ class C14(PropCheck):
             if o['op'] == 'observed' and not models[o['h']].has_node(o['name']):
                 # the generator's shadow does not know that a private node was cleaned up: observed data
                 # is only ever set for existing nodes (a plain dict write on a missing name is outside the property)
+                continue
+            if o['op'] == 'flag' and models[o['h']].has_node(o['name']) and o['flag'] != 'parameter' and not isinstance(
+                    models[o['h']].get_state(o['name'])['attr_dict'].get('_operation'), RecOp):
+                # instruction flags are only written to nodes whose operation accepts the extra arguments (the
+                # recording operations); a constant or a scipy-like distribution would just fail in generate
+                self.bump('flag_skipped=not-a-recording-operation')
                 continue
             try:
                 self._apply(models, rec, o)
